@@ -32,6 +32,12 @@ pub enum LStep {
     TryWrite,
     PollReadFut,
     PollWriteFut,
+    /// the same into the thread's second future slot (two waiters owned by one task set)
+    PollLockFutB,
+    PollReadFutB,
+    PollWriteFutB,
+    /// block on the future of the second slot
+    AwaitFutB,
     /// while holding a read guard: try_read until it is refused (writer gate observed) or 4 rounds
     ProbeGate,
     /// release the held guard
@@ -102,6 +108,7 @@ fn touch_w(c: &Cell) -> u32 {
 fn run_thread(t: u8, steps: Vec<LStep>, l: Locks, joins: &mut Vec<loom::thread::JoinHandle<()>>) {
     let mut held: Option<Guard> = None;
     let mut fut: Option<(GFut, Arc<Wk>, Waker)> = None;
+    let mut fut_b: Option<(GFut, Arc<Wk>, Waker)> = None;
     let call = |op: &Op| rt::log_call(t, 0, op);
     let ret = |op: &Op, r: Res, outcome: bool| rt::log_ret(t, 0, op, r, outcome);
     for s in steps {
@@ -174,19 +181,20 @@ fn run_thread(t: u8, steps: Vec<LStep>, l: Locks, joins: &mut Vec<loom::thread::
                     held = Some(Guard::W(g));
                 }
             }
-            LStep::PollLockFut | LStep::PollReadFut | LStep::PollWriteFut => {
+            LStep::PollLockFut | LStep::PollReadFut | LStep::PollWriteFut | LStep::PollLockFutB | LStep::PollReadFutB | LStep::PollWriteFutB => {
+                let second = matches!(s, LStep::PollLockFutB | LStep::PollReadFutB | LStep::PollWriteFutB);
                 let op = match s {
-                    LStep::PollLockFut => Op::LockPoll,
-                    LStep::PollReadFut => Op::ReadPoll,
+                    LStep::PollLockFut | LStep::PollLockFutB => Op::LockPoll,
+                    LStep::PollReadFut | LStep::PollReadFutB => Op::ReadPoll,
                     _ => Op::WritePoll,
                 };
                 call(&op);
                 let mut f: GFut = match s {
-                    LStep::PollLockFut => {
+                    LStep::PollLockFut | LStep::PollLockFutB => {
                         let m = l.m();
                         Box::pin(async move { Guard::M(m.lock_async().await) })
                     }
-                    LStep::PollReadFut => {
+                    LStep::PollReadFut | LStep::PollReadFutB => {
                         let rw = l.rw();
                         Box::pin(async move { Guard::R(rw.read_async().await) })
                     }
@@ -207,17 +215,30 @@ fn run_thread(t: u8, steps: Vec<LStep>, l: Locks, joins: &mut Vec<loom::thread::
                     }
                     Poll::Pending => {
                         ret(&op, Res::Pending, true);
-                        fut = Some((f, wk, waker));
+                        if second {
+                            fut_b = Some((f, wk, waker));
+                        } else {
+                            fut = Some((f, wk, waker));
+                        }
                     }
                 }
             }
-            LStep::AwaitFut => {
-                if let Some((mut f, wk, waker)) = fut.take() {
+            LStep::AwaitFut | LStep::AwaitFutB => {
+                let slot = if s == LStep::AwaitFutB { fut_b.take() } else { fut.take() };
+                if let Some((mut f, wk, waker)) = slot {
+                    // a guard obtained by an earlier step would make the task wait for itself
+                    if let Some(old) = held.take() {
+                        unlock(t, old);
+                    }
                     call(&Op::FutAwait);
+                    // the future was polled before and returned Pending: an executor polls it again only
+                    // after its waker fired, so wait for the wake first (a re-poll without a wake would
+                    // barge into a free lock and hide a lost wakeup)
                     let g = loop {
+                        wk.wait();
                         match poll_once(f.as_mut(), &waker) {
                             Poll::Ready(g) => break g,
-                            Poll::Pending => wk.wait(),
+                            Poll::Pending => {}
                         }
                     };
                     ret(&Op::FutAwait, Res::Ok, true);
@@ -270,10 +291,12 @@ fn run_thread(t: u8, steps: Vec<LStep>, l: Locks, joins: &mut Vec<loom::thread::
             LStep::JoinAll => join_all(t, joins),
         }
     }
-    if let Some((f, _wk, _waker)) = fut.take() {
-        call(&Op::LockFutDrop);
-        drop(f);
-        ret(&Op::LockFutDrop, Res::Ok, false);
+    for slot in [fut.take(), fut_b.take()] {
+        if let Some((f, _wk, _waker)) = slot {
+            call(&Op::LockFutDrop);
+            drop(f);
+            ret(&Op::LockFutDrop, Res::Ok, false);
+        }
     }
     if let Some(g) = held.take() {
         unlock(t, g);
@@ -538,5 +561,16 @@ fn base_scenarios() -> Vec<Scenario> {
         sc("woken_writefut_dropped_releases_gate", true, vec![vec![Read, PollWriteFut, Unlock, DropFut], cs(Read)], t2),
         sc("woken_readfut_dropped_forwards_wake", true, vec![vec![Write, PollReadFut, Unlock, DropFut], cs(Write)], t2),
         sc("writefut_cancel_then_write", true, vec![cs(Read), vec![PollWriteFut, DropFut, Write, Touch, Unlock]], t2),
+        // a queued future is cancelled by its owner WHILE the holder releases (and wakes it), with a third
+        // thread parked behind it: whichever way the race goes, the thread behind must get the lock
+        // ... and with the waiter behind being a second future of the cancelling task (two threads only)
+        sc("cancel_vs_unlock_with_future_behind", false, vec![vec![Lock, WaitGo, Unlock], vec![PollLockFut, PollLockFutB, SetGo, DropFut, AwaitFutB, Touch, Unlock]], t2),
+        sc("writefut_cancel_vs_unlock_with_future_behind", true, vec![vec![Write, WaitGo, Unlock], vec![PollWriteFut, PollWriteFutB, SetGo, DropFut, AwaitFutB, Touch, Unlock]], t2),
+        sc("readfut_cancel_vs_unlock_with_writefut_behind", true, vec![vec![Write, WaitGo, Unlock], vec![PollReadFut, PollWriteFutB, SetGo, DropFut, AwaitFutB, Touch, Unlock]], t2),
+        sc("writefut_cancel_vs_last_reader_out_with_readfut_behind", true, vec![vec![Read, WaitGo, Unlock], vec![PollWriteFut, PollReadFutB, SetGo, DropFut, AwaitFutB, Touch, Unlock]], t2),
+        sc("cancel_vs_unlock_with_waiter_behind", false, vec![vec![Lock, WaitGo, Unlock], vec![PollLockFut, SetGo, DropFut], cs(Lock)], t3),
+        sc("writefut_cancel_vs_unlock_with_waiter_behind", true, vec![vec![Write, WaitGo, Unlock], vec![PollWriteFut, SetGo, DropFut], cs(Write)], t3),
+        sc("readfut_cancel_vs_unlock_with_waiter_behind", true, vec![vec![Write, WaitGo, Unlock], vec![PollReadFut, SetGo, DropFut], cs(Write)], t3),
+        sc("writefut_cancel_vs_last_reader_out_with_reader_behind", true, vec![vec![Read, WaitGo, Unlock], vec![PollWriteFut, SetGo, DropFut], cs(ReadAsync)], t3),
     ]
 }
